@@ -37,6 +37,18 @@ def condition_flow(p, cg, fields, index=None):
         c = t["callee"]
         if c["k"] == "fndef" and callee_name(c) == "mlpg_adjust::MlpgAdjust::<'a>::create" and not t["dest"]["proj"]:
             create_results[t["dest"]["local"]] = t
+    # .. and every local that merely receives such a result by a plain move (the return slot of an
+    # inlined helper, a renamed binding)
+    changed = True
+    while changed:
+        changed = False
+        for bb, i, st in g.iter_stmts():
+            if st["k"] == "assign" and not st["place"]["proj"] and st["rv"]["k"] == "use" and st["rv"]["op"].get("k") in ("move", "copy") \
+                    and not st["rv"]["op"]["place"]["proj"] and st["rv"]["op"]["place"]["local"] in create_results \
+                    and st["place"]["local"] not in create_results:
+                if len([d for d in g.defs().get(st["place"]["local"], []) if not g.is_cleanup(d[0])]) == 1:
+                    create_results[st["place"]["local"]] = create_results[st["rv"]["op"]["place"]["local"]]
+                    changed = True
     holder = {}
 
     def hook(t, at):
